@@ -934,6 +934,60 @@ pub fn c12(ctx: &Ctx) -> Outcome {
         p.samples.push(json!({"variant": "silent-peer", "seed": 1}));
         out.parts.push(p);
     }
+    // a connect is completed only by a packet that names the connection: state packets from the peer's
+    // address that acknowledge the SYN but carry another connection id (ids around the right one and far
+    // from it), before and after the genuine SYN-ACK, in every order
+    {
+        let mut p = Part::fe("sock:c12-syn-ack-with-foreign-id");
+        let deltas = [1u16, 2, 3, 7, 0xffff, 0xfffe, 1000];
+        let mut cases: Vec<Vec<(Ev, bool)>> = vec![];
+        for d in deltas {
+            let foreign = Ev::RawSynAckOtherId { from: 0, fake: 50, delta: d };
+            let genuine = Ev::RawSynAck { from: 0, fake: 50 };
+            let connect = Ev::ConnectFake { from: 0, fake: 50 };
+            cases.push(vec![(connect.clone(), false), (foreign.clone(), false), (Ev::Settle, false)]);
+            cases.push(vec![(connect.clone(), false), (foreign.clone(), false), (genuine.clone(), false), (Ev::Settle, false)]);
+            cases.push(vec![(connect.clone(), false), (foreign.clone(), false), (genuine.clone(), true), (Ev::Settle, false)]);
+            cases.push(vec![(connect.clone(), false), (genuine.clone(), false), (foreign.clone(), true), (Ev::Settle, false)]);
+            cases.push(vec![(connect.clone(), false), (connect.clone(), false), (foreign.clone(), false), (genuine.clone(), false), (Ev::Settle, false)]);
+        }
+        let results: Vec<(Vec<SFinding>, u64)> = cases
+            .par_iter()
+            .map(|ev| {
+                let script = SockScript { cfgs: cfg_n(1, 64, &[500]), events: ev.clone(), rng_seed: 1, latency_us: 10_000, plan: vec![] };
+                let l = run(&script);
+                let mut fs = judge_c12(&script, &l);
+                // the id the stream sends with = id of the SYN + 1; whatever completed the connect, the first
+                // packet the new connection emits tells which ids it was wired with
+                for (i, c) in l.connects.iter().enumerate() {
+                    if let (Done::Ok { .. }, Some(t_done)) = (&c.done, c.done_us) {
+                        let genuine_seen = l.wire.iter().zip(l.wire_from.iter()).any(|(w, from)| w.injected && w.ptype == 2 && *from == fake_addr(50) && w.t_us <= t_done && l.wire.iter().any(|s| s.ptype == 4 && !s.injected && s.conn_id == w.conn_id));
+                        if !genuine_seen {
+                            fs.push(sf("C12", "isolation", "ids/connect-completed-by-a-packet-with-a-foreign-connection-id", format!("connect #{i} completed at {t_done} us although no state packet carrying the connection id of its SYN had arrived: a packet naming another connection was taken as its SYN-ACK")));
+                        }
+                    }
+                }
+                (fs, l.trace_hash)
+            })
+            .collect();
+        let mut seen = std::collections::HashSet::new();
+        for (ev, (fs, h)) in cases.iter().zip(results) {
+            p.evaluations += 1;
+            if seen.insert(h) {
+                p.distinct_nontrivial += 1;
+            }
+            for f in fs {
+                if !out.violations.iter().any(|v| v.signature == f.signature) {
+                    let script = SockScript { cfgs: cfg_n(1, 64, &[500]), events: ev.clone(), rng_seed: 1, latency_us: 10_000, plan: vec![] };
+                    out.violations.push(Violation { property: f.property.to_string(), monitor: f.monitor.to_string(), signature: f.signature.clone(), detail: format!("[foreign-id events {:?}] {}", ev, f.detail), replay: replay_json(&script, "c12") });
+                }
+            }
+        }
+        p.distinct_outcomes = p.distinct_nontrivial;
+        p.bound = "a connect to a silent peer x 7 foreign connection ids (id of the SYN +1, +2, +3, +7, -1, -2, +1000) x 5 orders of the foreign packet, the genuine SYN-ACK and a second connect".into();
+        p.samples.push(json!({"delta": 1, "order": "foreign, genuine"}));
+        out.parts.push(p);
+    }
     out.rule = "C12: every sequence of connect/accept/close events up to the stated length over 2 and 3 sockets, for connection limits 1, 2, 3, 64 and adjacent / equal first connection ids on the two sides; per-stream position-coded payloads in both directions; single-fault interleavings".into();
     out.assumptions.push("a lost SYN is never retransmitted by the library, so SYNs are exempt from the fault plans".into());
     out
